@@ -11,3 +11,5 @@ pub mod read_only_lock;
 pub mod serde;
 #[cfg(all(kani, feature = "verif-collections"))]
 pub mod verif_collections;
+#[cfg(all(kani, feature = "verif-step"))]
+pub mod verif_hooks;
